@@ -351,6 +351,20 @@ int main(int argc, char** argv) {
                     if (probe) for (auto& sd : setter_table()) if (sd.applies(*probe)) ++nset;
                     if (nset <= 24) depth = 3; else g_kmax[1] = 4;
                 }
+                {   // zero edits: the state of a freshly built object is a function of the constructor, not of what the memory held before
+                    g_new_fill_on = true; g_new_fill = 0xa5; std::unique_ptr<PDU> fa(cs[i].make());
+                    g_new_fill = 0x3c; std::unique_ptr<PDU> fb(cs[i].make()); g_new_fill_on = false;
+                    if (fa && fb) {
+                        R.count("default_objects_compared");
+                        auto sa = snapshot(*fa), sb = snapshot(*fb);
+                        for (auto& kv : sa) if (sb[kv.first] != kv.second) { R.violation("api:default-state-indeterminate:" + kv.first, kv.first + " of a default-constructed object reads " + kv.second + " or " + sb[kv.first] + " depending on the previous content of its memory", "variant=" + std::to_string(i) + " depth=0 ops="); break; }
+                        if (!needs_environment(*fa)) {
+                            Bytes ya, yb; bool ok = true;
+                            try { ya = fa->serialize(); yb = fb->serialize(); } catch (std::exception& e_) { if (!mc::tins_exc(e_)) throw; ok = false; }
+                            if (ok && ya != yb) R.violation("api:default-serialization-indeterminate:" + cs[i].name, hex(ya).substr(0, 200) + " vs " + hex(yb).substr(0, 200), "variant=" + std::to_string(i) + " depth=0 ops=");
+                        }
+                    }
+                }
                 run_class(cs[i], (int)i, depth); if (deadline_reached()) { R.flags["exhaustive"] = false; break; } }
         },
         [&](const std::string& kase) -> int {
